@@ -7,8 +7,16 @@ ready / broken connection events, every shard-aware attempt carries the CURRENT 
 count - so `assert!(shard < nr_shards)` (`sharding.rs:176, 210`) cannot fire inside the refiller task, and the loop
 theorems of `Props/C11Connect.lean` (which assume `s < n`) apply to every attempt the pool makes.
 Not modelled here: the destination port (`endpoint.set_port(self.shard_aware_port)`) - see `partial`.
+
+Second half (`Model/C11PoolAttempt.lean`): WHICH RANGE the attempt walks and what becomes of `NoSourcePortForShard`.
+The attempt is one call of the loop over the range the user configured; its result is final; a failed shard-aware
+attempt is followed by a plain attempt, in which the driver chooses no source port. Hence, for every configured range,
+every shard, every pivot and every behaviour of the operating system: every source port the driver binds on behalf of
+the pool lies in the configured range and is congruent to the shard, and none is produced when the range has no usable
+port of the shard - whatever ports exist OUTSIDE the range.
 -/
 import ScyllaVerif.Model.Routing
+import ScyllaVerif.Model.C11PoolAttempt
 import ScyllaVerif.Props.C11Connect
 
 namespace ScyllaVerif.Props.C11Pool
@@ -140,5 +148,119 @@ example :
     let c : Conn := ⟨7, some ⟨1, 3, 12⟩⟩
     ((Refiller.init (.perShard 1)).run [.ready c false]).map (fun rf => shardAwareAttempts rf 1) =
       some [(0, ⟨3, 12⟩), (2, ⟨3, 12⟩)] := by decide
+
+/-! ### one attempt of the pool: the range walked is the configured range, `NoSourcePortForShard` is final -/
+
+section attempt
+open ScyllaVerif.C11PoolAttempt
+
+/-- The refiller's shard-aware attempts are exactly `start_opening_connection(Some(shard))` in a refiller that has a
+sharder and a shard-aware port: for every reachable pool state the attempt is `shardAware shard nr` with `shard < nr`. -/
+theorem startOpening_of_attempt (size : PoolSize) (evts : List PoolEvt) (rf : Refiller)
+    (h : (Refiller.init size).run evts = some rf) (target shard : Nat) (s : SharderM)
+    (hm : (shard, s) ∈ shardAwareAttempts rf target) (port : Nat) :
+    startOpening (rf.sharder.map (·.nr)) (some port) (some shard) = .shardAware shard s.nr ∧ shard < s.nr := by
+  obtain ⟨hs, hlt⟩ := attempts_shard_lt size evts rf h target shard s hm
+  rw [hs]
+  exact ⟨rfl, hlt⟩
+
+/-- Without a sharder, without a shard-aware port or without a requested shard the attempt is plain: the driver chooses
+no source port at all. -/
+theorem startOpening_plain_iff (sharder port shard : Option Nat) :
+    startOpening sharder port shard = .plain ↔ sharder = none ∨ port = none ∨ shard = none := by
+  cases sharder <;> cases port <;> cases shard <;> simp [startOpening]
+
+/-- **A connection opened by a pool attempt with a driver-chosen source port comes from the CONFIGURED range**, from a
+port congruent to the requested shard on which `open_connection` succeeded. -/
+theorem attempt_connected_in_cfg_range (cfg : PortCfg) (s nr pivot p : Nat) (f : Nat → Except ConnErr Unit)
+    (hn : 0 < nr) (hs : s < nr) (hhi : cfg.hi ≤ 65535)
+    (h : runAttempt cfg (.shardAware s nr) pivot f = some (.connected p)) :
+    cfg.lo ≤ p ∧ p ≤ cfg.hi ∧ p % nr = s ∧ f p = .ok () := by
+  simp only [runAttempt, Option.some.injEq] at h
+  exact open_connected_spec nr s cfg.lo cfg.hi pivot p f hn hs hhi h
+
+/-- **Nothing is produced when the configured range has no usable port of the shard** - a range shorter than the shard
+count, or every port of the shard busy - WHATEVER is free outside the range: the attempt ends with
+`NoSourcePortForShard`, and what follows is a plain attempt. -/
+theorem attempt_noSource_final (cfg : PortCfg) (s nr pivot : Nat) (f : Nat → Except ConnErr Unit)
+    (hn : 0 < nr) (hs : s < nr) (hhi : cfg.hi ≤ 65535)
+    (hbusy : ∀ p, cfg.lo ≤ p → p ≤ cfg.hi → p % nr = s → Unavailable f p) :
+    runAttempt cfg (.shardAware s nr) pivot f = some .noSourcePort ∧
+    followUp (.shardAware s nr) (runAttempt cfg (.shardAware s nr) pivot f) = some .plain := by
+  have h1 : runAttempt cfg (.shardAware s nr) pivot f = some .noSourcePort := by
+    simp only [runAttempt, Option.some.injEq]
+    exact (open_noSourcePort_iff nr s cfg.lo cfg.hi pivot f hn hs hhi).mpr hbusy
+  exact ⟨h1, by rw [h1]; rfl⟩
+
+/-- … and conversely `NoSourcePortForShard` is the attempt's result ONLY then. -/
+theorem attempt_noSource_iff (cfg : PortCfg) (s nr pivot : Nat) (f : Nat → Except ConnErr Unit)
+    (hn : 0 < nr) (hs : s < nr) (hhi : cfg.hi ≤ 65535) :
+    runAttempt cfg (.shardAware s nr) pivot f = some .noSourcePort ↔
+      ∀ p, cfg.lo ≤ p → p ≤ cfg.hi → p % nr = s → Unavailable f p := by
+  simp only [runAttempt, Option.some.injEq]
+  exact open_noSourcePort_iff nr s cfg.lo cfg.hi pivot f hn hs hhi
+
+/-- The follow-up of an attempt is never shard-aware: no failure makes the refiller walk source ports a second time. -/
+theorem followUp_plain (a : PoolAttempt) (r : Option OpenResult) (b : PoolAttempt) (h : followUp a r = some b) : b = .plain := by
+  unfold followUp at h
+  split at h <;> simp_all
+
+/-- **Every source port the driver binds for an attempt AND for everything its failure starts lies in the configured
+range and is congruent to the shard** - for every range, pivot and behaviour of the operating system. -/
+theorem chainTried_in_cfg_range (cfg : PortCfg) (s nr pivot p : Nat) (f : Nat → Except ConnErr Unit)
+    (hn : 0 < nr) (hs : s < nr) (hhi : cfg.hi ≤ 65535)
+    (h : p ∈ chainTried cfg (.shardAware s nr) pivot f) :
+    cfg.lo ≤ p ∧ p ≤ cfg.hi ∧ p % nr = s := by
+  unfold chainTried at h
+  rcases List.mem_append.mp h with h | h
+  · exact tried_mem nr s cfg.lo cfg.hi pivot p f hn hs hhi h
+  · split at h
+    · next b hb =>
+      have := followUp_plain _ _ b hb
+      subst this
+      simp [attemptTried] at h
+    · simp at h
+
+/-- A plain attempt binds no source port of the driver's choosing. -/
+theorem chainTried_plain (cfg : PortCfg) (pivot : Nat) (f : Nat → Except ConnErr Unit) :
+    chainTried cfg .plain pivot f = [] := by
+  simp [chainTried, attemptTried, followUp]
+
+/-- The attempt's result does not depend on anything outside the configured range: two worlds that agree on the ports
+of the range give the same result (so a free port outside the range can never turn `NoSourcePortForShard` into a
+connection). -/
+theorem attempt_ignores_outside (cfg : PortCfg) (s nr pivot : Nat) (f g : Nat → Except ConnErr Unit)
+    (hn : 0 < nr) (hs : s < nr) (hhi : cfg.hi ≤ 65535)
+    (hfg : ∀ p, cfg.lo ≤ p → p ≤ cfg.hi → f p = g p) :
+    runAttempt cfg (.shardAware s nr) pivot f = runAttempt cfg (.shardAware s nr) pivot g := by
+  simp only [runAttempt, Option.some.injEq]
+  unfold openShardAware
+  have key : ∀ ps : List Nat, (∀ p ∈ ps, f p = g p) → openLoop f ps = openLoop g ps := by
+    intro ps
+    induction ps with
+    | nil => intro _; rfl
+    | cons q qs ih =>
+      intro hq
+      have h1 := hq q (List.mem_cons_self ..)
+      have h2 := ih (fun p hp => hq p (List.mem_cons_of_mem _ hp))
+      simp only [openLoop, h1, h2]
+  apply key
+  intro p hp
+  obtain ⟨a, b, _⟩ := (ScyllaVerif.Props.C11.iterPorts_mem nr s cfg.lo cfg.hi pivot p hn hs hhi).mp hp
+  exact hfg p a b
+
+-- non-vacuity: 4 shards, the configured range [2000, 2001] has no port of shard 3 (2003 would be one, and is free):
+-- the attempt answers NoSourcePortForShard, is followed by a plain attempt, and binds nothing; shard 1 connects from 2001
+example :
+    let cfg : PortCfg := ⟨2000, 2001⟩
+    let f : Nat → Except ConnErr Unit := fun _ => .ok ()
+    runAttempt cfg (.shardAware 3 4) 0 f = some .noSourcePort ∧
+    followUp (.shardAware 3 4) (runAttempt cfg (.shardAware 3 4) 0 f) = some .plain ∧
+    chainTried cfg (.shardAware 3 4) 0 f = [] ∧
+    runAttempt cfg (.shardAware 1 4) 0 f = some (.connected 2001) ∧
+    startOpening (some 4) (some 19042) (some 3) = .shardAware 3 4 ∧ startOpening (some 4) none (some 3) = .plain := by
+  decide
+
+end attempt
 
 end ScyllaVerif.Props.C11Pool
